@@ -40,6 +40,35 @@ FILES = {
     "cmd/hidi/config.go": ["C18", "C09"],
     D + "open_rgb.go": ["C17", "C16"],
 }
+# second pass (--full): the checks of the properties a FUNCTION serves, instead of everything anchored in the file
+FUNC_CHECKS = {
+    (D + "events.go", "handleABSEvent"): ["C08", "C06", "C07", "C05", "C01"],
+    (D + "events.go", "handleKEYEvent"): ["C14", "C02", "C03", "C01", "C13"],
+    (D + "events.go", "checkExitSequence"): ["C14"],
+    (D + "events.go", "handleInputEvents"): ["C17", "C16"],
+    (D + "events.go", "ProcessEvents"): ["C01", "C16"],
+    (D + "events.go", "processEvent"): ["C01", "C14"],
+    (D + "device.go", "NoteOn"): ["C03", "C04", "C02", "C01"],
+    (D + "device.go", "NoteOff"): ["C03", "C02", "C01"],
+    (D + "device.go", "noteOff"): ["C03", "C02", "C01"],
+    (D + "device.go", "Panic"): ["C13", "C17", "C01"],
+    (D + "device.go", "transposition"): ["C04", "C17"],
+    (D + "device.go", "AnalogNoteOn"): ["C08", "C01"],
+    (D + "device.go", "AnalogNoteOff"): ["C08", "C01"],
+    (D + "device.go", "NewDevice"): ["C01", "C03", "C04", "C17"],
+    (D + "device.go", "checkDoubleActions"): ["C04", "C13"],
+    (D + "device.go", "Multinote"): [],
+    (D + "device.go", "Status"): [],
+    ("internal/pkg/input/device.go", "ProcessEvents"): [],  # needs evdev nodes: no property can reach it here
+    ("internal/pkg/input/info.go", "String"): [],
+    ("internal/pkg/midi/event.go", "String"): ["C11"],
+    ("cmd/hidi/config.go", "parseDeviceBlacklist"): [],
+    ("cmd/hidi/config.go", "LoadHIDIConfig"): ["C09"],
+    ("cmd/hidi/config.go", "updateHIDIConfiguration"): ["C18"],
+}
+for fn in ("OctaveUp", "OctaveDown", "OctaveReset", "SemitoneUp", "SemitoneDown", "SemitoneReset", "ChannelUp", "ChannelDown", "ChannelReset",
+           "MappingUp", "MappingDown", "MappingReset", "forgetAxisValues", "State"):
+    FUNC_CHECKS[(D + "device.go", fn)] = ["C04", "C01", "C17"]
 lock = threading.Lock()
 
 
@@ -85,7 +114,12 @@ def worker(k, q, args, outf):
                     continue
                 res["verdict"] = "SURVIVED"
                 res["checks"] = {}
-                for prop in FILES[m["file"]]:
+                props = FILES[m["file"]]
+                if args.full and (m["file"], m["func"]) in FUNC_CHECKS:
+                    props = FUNC_CHECKS[(m["file"], m["func"])]
+                    if not props:
+                        res["verdict"] = "outside"  # code no listed property speaks about / can reach in this sandbox
+                for prop in props:
                     env = dict(ENV, VERIF_REPO=wt, VERIF_JOBS=str(args.jobs), VERIF_FAILFAST="1", VERIF_TIMEOUT="240")
                     if not args.full:
                         env["VERIF_SCALE"] = str(args.scale)
@@ -137,6 +171,7 @@ def main():
     ap.add_argument("--files", default="")
     ap.add_argument("--out", default=os.path.join(HERE, "build", "mutsweep.jsonl"))
     ap.add_argument("--only-ids")
+    ap.add_argument("--only-like", help="a results file: run the mutants whose (file, function, operator, description) appear in it with verdict SURVIVED/timeout or an error")
     ap.add_argument("--full", action="store_true")
     ap.add_argument("--seed", type=int, default=1)
     args = ap.parse_args()
@@ -157,6 +192,16 @@ def main():
     only = None
     if args.only_ids:
         only = set(l.strip() for l in open(args.only_ids) if l.strip())
+    like = None
+    if args.only_like:
+        like = set()
+        for line in open(args.only_like):
+            try:
+                r = json.loads(line)
+            except Exception:
+                continue
+            if r.get("verdict") in ("SURVIVED", "timeout") or any(str(v).startswith("error") for v in (r.get("checks") or {}).values()):
+                like.add((r["file"], r["func"], r["op"], r["desc"]))
     q = queue.Queue()
     n = 0
     per_file = []
@@ -173,7 +218,9 @@ def main():
         ms = [json.loads(l) for l in out.splitlines() if l.startswith("{")]
         rnd = random.Random(args.seed)
         rnd.shuffle(ms)
-        if only is not None:
+        if like is not None:
+            ms = [m for m in ms if (m["file"], m["func"], m["op"], m["desc"]) in like]
+        elif only is not None:
             ms = [m for m in ms if m["id"] in only]
         elif args.sample:
             ms = ms[:args.sample]
